@@ -220,7 +220,7 @@ func Spec() *core.Spec {
 		Level: "exploration",
 		Rule: "seeded well-formed Request/Response messages over the public types (27 operations x 2 directions forced round-robin x versions 1.0..1.4, batches of 1-6, " +
 			"9 object types, 13 key formats, 50 standard + custom attributes, 3 credential types, message extensions, opaque payloads; full-range integers, big integers of both signs, " +
-			"whole-second dates, intervals < 2^32 s, arbitrary-byte text); the decode buffer is overwritten once the decoder has returned, before the decoded message is compared and re-encoded; distinct = distinct layout shapes (tags, types, string length mod 8, big-integer sign/size class) of the expected tree",
+			"whole-second dates, intervals < 2^32 s, arbitrary-byte text); the decode buffer is overwritten once the decoder has returned, before the decoded message is compared and re-encoded; field order/optionality from the pinned layout table; dates with non-UTC locations; the previous message's returned bytes re-checked after later encodes; distinct = distinct layout shapes (tags, types, string length mod 8, big-integer sign/size class) of the expected tree",
 		Assumptions: []string{"the reference layout model takes field order and omitempty from the struct definitions; tags and version gates from the pinned tables",
 			"a ResponseBatchItem carries Result Reason when the status is Operation Failed or a reason is set (KMIP 1.4 §6.10)"},
 		Required: required(),
